@@ -824,102 +824,137 @@ func runC09(r *harness.Run) {
 		}
 	}()
 
-	// error cases: Lua-level store under nil / NaN raises and changes nothing; checked in every state below
-	type seenShard struct {
-		mu sync.Mutex
-		m  map[string]struct{}
-	}
-	const nsh = 64
-	var seen [nsh]seenShard
-	for i := range seen {
-		seen[i].m = map[string]struct{}{}
-	}
-	addSeen := func(key string) bool {
-		h := 0
-		for i := 0; i < len(key); i++ {
-			h = h*31 + int(key[i])
-		}
-		s := &seen[uint(h)%nsh]
-		s.mu.Lock()
-		defer s.mu.Unlock()
-		if _, ok := s.m[key]; ok {
-			return false
-		}
-		s.m[key] = struct{}{}
-		return true
-	}
-
-	frontier := []c09State{{}}
-	addSeen("|" + c09Layout(workers[0].L.NewTable()))
 	var states, transitions, mutRuns int64 = 0, 0, 0
 	var mu sync.Mutex
-	maxDepthDone := -1
-	for d := 0; d <= depth && len(frontier) > 0; d++ {
-		var next []c09State
-		expired := false
-		chunks := (len(frontier) + 63) / 64
-		harness.ParallelShards(chunks, func(wi, shard int) {
-			w := workers[wi]
-			var localNext []c09State
-			var lstates, ltrans, lmut int64
-			for si := shard * 64; si < (shard+1)*64 && si < len(frontier); si++ {
-				if r.Expired() {
-					expired = true
-					break
-				}
-				st := frontier[si]
-				tb, m, ok := c.replay(w, st.hist, true)
-				if !ok {
-					continue
-				}
-				lstates++
-				c.fullCheck(w, tb, m, st.hist)
-				c.errorStores(w, tb, m, st.hist)
-				if len(m) <= 3 {
-					lmut += int64(c.mutationCheck(w, st.hist, m))
-				}
-				r.Eval(m.String()+"|"+c09Layout(tb), true, func() interface{} {
-					strs := make([]string, len(st.hist))
-					for i, o := range st.hist {
-						strs[i] = o.String(keys)
+	// explore runs one BFS over the given operation menu to the given depth and returns the deepest level completed
+	explore := func(menu []c09Op, depth int, phase string) int {
+		// error cases: Lua-level store under nil / NaN raises and changes nothing; checked in every state below
+		type seenShard struct {
+			mu sync.Mutex
+			m  map[string]struct{}
+		}
+		const nsh = 64
+		var seen [nsh]seenShard
+		for i := range seen {
+			seen[i].m = map[string]struct{}{}
+		}
+		addSeen := func(key string) bool {
+			h := 0
+			for i := 0; i < len(key); i++ {
+				h = h*31 + int(key[i])
+			}
+			s := &seen[uint(h)%nsh]
+			s.mu.Lock()
+			defer s.mu.Unlock()
+			if _, ok := s.m[key]; ok {
+				return false
+			}
+			s.m[key] = struct{}{}
+			return true
+		}
+
+		frontier := []c09State{{}}
+		addSeen("|" + c09Layout(workers[0].L.NewTable()))
+		maxDepthDone := -1
+		for d := 0; d <= depth && len(frontier) > 0; d++ {
+			var next []c09State
+			expired := false
+			chunks := (len(frontier) + 63) / 64
+			harness.ParallelShards(chunks, func(wi, shard int) {
+				w := workers[wi]
+				var localNext []c09State
+				var lstates, ltrans, lmut int64
+				for si := shard * 64; si < (shard+1)*64 && si < len(frontier); si++ {
+					if r.Expired() {
+						expired = true
+						break
 					}
-					return map[string]interface{}{"history": strs, "model": m.String(), "layout": c09Layout(tb)}
-				})
-				if d == depth {
-					continue
-				}
-				for _, op := range menu {
-					if _, full := m[c09IntName(c09MaxArrayIndex-1)]; full && op.Kind == "append" {
-						continue // would grow the array part past the (lowered) MaxArrayIndex: not judged, not explored
-					}
-					h2 := append(append(make([]c09Op, 0, len(st.hist)+1), st.hist...), op)
-					tb2, m2, ok := c.replay(w, h2, true)
-					ltrans++
+					st := frontier[si]
+					tb, m, ok := c.replay(w, st.hist, true)
 					if !ok {
 						continue
 					}
-					key := m2.String() + "|" + c09Layout(tb2)
-					if addSeen(key) {
-						localNext = append(localNext, c09State{h2})
+					lstates++
+					c.fullCheck(w, tb, m, st.hist)
+					c.errorStores(w, tb, m, st.hist)
+					if len(m) <= 3 {
+						lmut += int64(c.mutationCheck(w, st.hist, m))
+					}
+					r.Eval(m.String()+"|"+c09Layout(tb), true, func() interface{} {
+						strs := make([]string, len(st.hist))
+						for i, o := range st.hist {
+							strs[i] = o.String(keys)
+						}
+						return map[string]interface{}{"history": strs, "model": m.String(), "layout": c09Layout(tb)}
+					})
+					if d == depth {
+						continue
+					}
+					for _, op := range menu {
+						if _, full := m[c09IntName(c09MaxArrayIndex-1)]; full && op.Kind == "append" {
+							continue // would grow the array part past the (lowered) MaxArrayIndex: not judged, not explored
+						}
+						h2 := append(append(make([]c09Op, 0, len(st.hist)+1), st.hist...), op)
+						tb2, m2, ok := c.replay(w, h2, true)
+						ltrans++
+						if !ok {
+							continue
+						}
+						key := m2.String() + "|" + c09Layout(tb2)
+						if addSeen(key) {
+							localNext = append(localNext, c09State{h2})
+						}
+					}
+				}
+				mu.Lock()
+				next = append(next, localNext...)
+				states += lstates
+				transitions += ltrans
+				mutRuns += lmut
+				mu.Unlock()
+			})
+			if expired {
+				r.NotExhaustive(fmt.Sprintf("%s: deadline reached while expanding depth %d (depth %d fully covered)", phase, d, maxDepthDone))
+				break
+			}
+			maxDepthDone = d
+			// deterministic order for the next level
+			sort.Slice(next, func(i, j int) bool { return fmt.Sprint(next[i].hist) < fmt.Sprint(next[j].hist) })
+			frontier = next
+		}
+		return maxDepthDone
+	}
+	maxDepthDone := explore(menu, depth, "wide")
+	// second phase — narrow and deep: one key per representation (array slot, integer beyond the
+	// array part, fraction, string, boolean, table), store/erase only, two store paths, explored to
+	// twice the depth: delete-and-restore patterns with other keys stored in between, which the
+	// wide phase cannot reach
+	var narrow []c09Op
+	for ki := range keys {
+		switch keys[ki].name {
+		case "n:1", "n:2", "n:9", "n:1.5", "s:a", "b:true", "t:T0":
+			for vi, v := range c09Vals {
+				if v.name != "x" && v.name != "nil" {
+					continue
+				}
+				for _, st := range []string{"lua_reg", "tb.RawSetH"} {
+					if c09SetterApplies(st, &keys[ki]) {
+						narrow = append(narrow, c09Op{Kind: "set", Setter: st, Key: ki, Val: vi})
 					}
 				}
 			}
-			mu.Lock()
-			next = append(next, localNext...)
-			states += lstates
-			transitions += ltrans
-			mutRuns += lmut
-			mu.Unlock()
-		})
-		if expired {
-			r.NotExhaustive(fmt.Sprintf("deadline reached while expanding depth %d (depth %d fully covered)", d, maxDepthDone))
-			break
 		}
-		maxDepthDone = d
-		// deterministic order for the next level
-		sort.Slice(next, func(i, j int) bool { return fmt.Sprint(next[i].hist) < fmt.Sprint(next[j].hist) })
-		frontier = next
 	}
+	narrowDepth := 8
+	if r.Thorough() {
+		narrowDepth = 12
+	}
+	if d := envInt("VERIF_C09_NARROW"); d > 0 {
+		narrowDepth = d
+	}
+	narrowDone := explore(narrow, narrowDepth, "narrow")
+	r.Extra["narrow_phase_menu_size"] = len(narrow)
+	r.Extra["narrow_phase_max_depth_completed"] = narrowDone
 	r.Extra["states"] = states
 	r.Extra["transitions"] = transitions
 	r.Extra["traces_validated_against_impl"] = transitions
